@@ -363,3 +363,71 @@ func Verif_C09_V12_CloneCopy() {
 	vnd.ObserveBytes("got1", got1)
 	vnd.ObserveBytes("got2", got2)
 }
+
+// Verif_C09_V13_StreamClones: completion through a stream clone implies matching
+// content, whichever clone arrives first and whatever the other clone does.
+//
+// symgo: maxpaths=400000
+func Verif_C09_V13_StreamClones() { verifScenarioMultiplexer() }
+
+// Verif_C09_V14_ChunkTrailingData: a chunk-reader source that delivers exactly the
+// object's bytes (in one or two chunks), then any number (0..2) of EMPTY chunks,
+// then optionally more data, then EOF: the consumer may only observe completion
+// if nothing followed; trailing data after empty chunks is still "too big".
+func Verif_C09_V14_ChunkTrailingData() {
+	n := 1 + vnd.Choose(2)
+	ref := verifNewRef(n)
+	var script []verifDelivery
+	if n == 2 && vnd.Choose(2) == 1 {
+		script = append(script, verifDelivery{data: ref.data[:1]}, verifDelivery{data: ref.data[1:]})
+	} else {
+		script = append(script, verifDelivery{data: ref.data})
+	}
+	empties := vnd.Choose(3)
+	for i := 0; i < empties; i++ {
+		script = append(script, verifDelivery{data: []byte{}})
+	}
+	trailing := vnd.Choose(2) == 1
+	if trailing {
+		script = append(script, verifDelivery{data: vnd.Bytes(1)})
+	}
+	src := &verifChunkSource{script: script}
+	backend := vnd.Choose(2) == 1
+	integ := &verifIntegrity{}
+	b := NewCASBufferFromChunkReader(ref.digest, src, verifSource(backend, integ))
+	var got []byte
+	var err error
+	switch vnd.Choose(3) {
+	case 0:
+		got, err = b.ToByteSlice(10)
+	case 1:
+		w := &verifWriter{}
+		err = b.IntoWriter(w)
+		got = w.data
+	case 2:
+		r := b.ToChunkReader(0, 2)
+		for i := 0; i < 10; i++ {
+			var c []byte
+			c, err = r.Read()
+			got = append(got, c...)
+			if err != nil {
+				break
+			}
+		}
+		r.Close()
+		if err == io.EOF {
+			err = nil
+		}
+	}
+	vnd.Assert(src.closes == 1, "source not closed exactly once")
+	if trailing {
+		vnd.Cover("trailing-data")
+		vnd.Assert(err != nil, "consumer observed completion although data follows the object's last byte (after empty chunks)")
+		vnd.Assert(integ.valid == 0, "integrity callback received a positive verdict for oversized content")
+	} else {
+		vnd.Cover("exact")
+		vnd.Assert(err == nil, "exact content followed only by empty chunks was rejected")
+		vnd.Assert(verifBytesEqual(got, ref.data), "completed with bytes other than the object's")
+	}
+	vnd.ObserveBytes("v14", got)
+}
